@@ -148,9 +148,15 @@ class ExchangeClf(object):
         self.outcomes = []
         self.answers = []
 
+    maxkind = 3      # sequence contracts restrict the failures to timeouts (maxkind = 1) to keep the paths few
+    gone = False     # a sense() that found nothing leaves the frontend without a target
+
     def exchange(self, data, timeout):
+        if self.gone:
+            # ContactlessFrontend.exchange() without an activated target sends nothing and returns None
+            return None
         self.sent.append(bytes(data))
-        kind = nondet_int(0, 3)
+        kind = nondet_int(0, self.maxkind)
         self.outcomes.append(kind)
         if kind == 1:
             raise nfc.clf.TimeoutError("timeout")
@@ -163,7 +169,11 @@ class ExchangeClf(object):
         return rsp
 
     def sense(self, *targets, **options):
-        return None if nondet_bool() else targets[0]
+        if nondet_bool():
+            self.gone = True
+            return None
+        self.gone = False
+        return targets[0]
 
 
 class FaultyDevice(object):
